@@ -822,6 +822,15 @@ async fn drive(job: ServerJob, hub: Arc<Hub>, jobno: u64, multi: bool) -> Vec<St
             d.lines.push(json!({"ev": "skip", "step": st, "k": k}).to_string());
             continue;
         }
+        if scripted {
+            // scripted faults count against the scenario's fault budget as well
+            match (st.g.as_str(), st.what.as_deref(), st.mode.as_deref()) {
+                ("api", Some("cancel"), _) => d.budget.cancel = d.budget.cancel.saturating_sub(1),
+                ("api", Some(w), _) if w != "schedule" => d.budget.stray = d.budget.stray.saturating_sub(1),
+                ("rpc", _, Some("fail")) => d.budget.rpcfail = d.budget.rpcfail.saturating_sub(1),
+                _ => {}
+            }
+        }
         let done = d.do_step(&st);
         if !done {
             fails += 1;
